@@ -26,6 +26,8 @@ type lwrite struct {
 	key  string
 	val  []byte
 	num  uint64
+	// addSub realises a balance write as AddBalance / SubBalance of the difference to the current balance
+	addSub bool
 }
 
 func (w lwrite) String() string {
@@ -43,6 +45,12 @@ func (w lwrite) String() string {
 
 var c12Keys = []string{"a", "ab", "b", "", "\xff\x00k", "\x80", string([]byte{0, 1, 2, 0xfe, 0xff, 0xc3, 0x28}), "slot-\xe2\x82"}
 
+// balanceAdjuster is the relative balance API of the state ledger (used by the EVM adapter and the service registry).
+type balanceAdjuster interface {
+	SubBalance(addr *types.Address, value *big.Int)
+	AddBalance(addr *types.Address, value *big.Int)
+}
+
 func applyWrites(l ethledger.StateLedger, ws []lwrite) {
 	for _, w := range ws {
 		addr := c13Addrs[w.a]
@@ -57,7 +65,27 @@ func applyWrites(l ethledger.StateLedger, ws []lwrite) {
 			l.GetState(addr, []byte(w.key))
 			l.GetBalance(addr)
 		case "balance":
-			l.SetBalance(addr, new(big.Int).SetUint64(w.num))
+			tgt := new(big.Int).SetUint64(w.num)
+			bl, ok := l.(balanceAdjuster)
+			if !w.addSub || !ok {
+				l.SetBalance(addr, tgt)
+				break
+			}
+			cur := l.GetBalance(addr)
+			switch tgt.Cmp(cur) {
+			case -1:
+				bl.SubBalance(addr, new(big.Int).Sub(cur, tgt))
+			case 1:
+				bl.AddBalance(addr, new(big.Int).Sub(tgt, cur))
+			default:
+				// no difference, no call - unlike SetBalance(current value), which is a no-op write. Known finding
+				// KF-C10-noop-scalar-write: the root depends on whether such a no-op write was made; while it is open the
+				// no-op write is made here too, so that the two realisations differ only in how real changes are written
+				if sim.KFOpen("KF-C10-noop-scalar-write") {
+					sim.StatsFor("C10").KnownFinding("KF-C10-noop-scalar-write", w.String())
+					l.SetBalance(addr, tgt)
+				}
+			}
 		case "nonce":
 			l.SetNonce(addr, w.num)
 		case "code":
@@ -82,6 +110,7 @@ func drawWrites(t *rapid.T) []lwrite {
 			w.val = rapid.SliceOfN(rapid.Byte(), 1, 12).Draw(t, "vbytes")
 		}
 		w.num = uint64(rapid.IntRange(0, 9).Draw(t, "num"))
+		w.addSub = w.kind == "balance" && rapid.Bool().Draw(t, "addSub")
 		ws = append(ws, w)
 	}
 	return ws
